@@ -49,8 +49,10 @@ func OverlappingTables(tables []TableMeta, kr KeyRange) (int, int) {
 	left := sort.Search(len(tables), func(i int) bool {
 		return utils.CompareKeys(kr.Left, tables[i].MaxKey) <= 0
 	})
+	// The first table that starts after the range ends; a table whose range merely contains
+	// kr.Right (MaxKey > kr.Right but MinKey <= kr.Right) still overlaps and must be included.
 	right := sort.Search(len(tables), func(i int) bool {
-		return utils.CompareKeys(kr.Right, tables[i].MaxKey) < 0
+		return utils.CompareKeys(kr.Right, tables[i].MinKey) < 0
 	})
 	return left, right
 }
